@@ -57,6 +57,8 @@ def valid_hello(world, r):
 def run_attack(cfg, out):
     r = rng("C11", cfg["seed"], cfg["shard"])
     blocked_ips = {"10.66.0.%d" % i for i in range(1, 6)} if cfg["shard"] % 2 == 0 else {"10.66.1.1"}
+    # IPv6 sources (Twisted hands datagramReceived a (host, port) pair for those too)
+    blocked_ips |= {"2001:db8::bad:1", "::1", "::ffff:10.66.9.9"} if cfg["shard"] % 3 != 1 else {"fe80::66"}
     c = out["counters"]
 
     def viol(mech, msg):
